@@ -68,7 +68,12 @@ impl PropertyValue {
             16 => Ok(PropertyValue::I1(reader.read_i8()?)),
             30 => {
                 let length = reader.read_u32::<LittleEndian>()?;
-                let length = if length == 0 { 0 } else { length - 1 };
+                if length == 0 {
+                    // A size of zero means that there are no characters at
+                    // all, not even a terminator.
+                    return Ok(PropertyValue::LpStr(String::new()));
+                }
+                let length = length - 1;
                 // Don't trust the length for the allocation; read what is
                 // actually there.
                 let mut bytes = Vec::<u8>::new();
